@@ -28,9 +28,10 @@ def register(reg, S):
             result=S[ename], requires=t["be_pre"], raises=t["raises"], ensures=t["post"] + payload,
             # the payload clauses (value / sustain carried over verbatim) are what C07 (instrument
             # kinds) and C09 (global event kinds) say about the EVENT, beyond the decoded datum
-            props=["C01", "C11", "C12"] + (["C09"] if "globalevents" in key else ["C07"]),
+            # (the star-power phrase list that C05 quantifies over is built from the S data by this constructor)
+            props=["C01", "C11", "C12"] + (["C09"] if "globalevents" in key else ["C07"]) + (["C05"] if label == "StarPowerEvent" else []),
             clause_props={"time-is-TS": ["C01", "C11", "C12"], "index-": ["C01", "C11", "C12"],
-                          payload[0][0]: ["C09"] if "globalevents" in key else ["C07"]}))
+                          payload[0][0]: (["C09"] if "globalevents" in key else ["C07"]) + (["C05"] if label == "StarPowerEvent" else [])}))
 
     # line decoders of the three global event kinds (one inherited function, three classes)
     for kind in ("Text", "Section", "Lyric"):
